@@ -380,7 +380,8 @@ def run_compiler_check(ctx, res, prop):
                 res.disagree(case, "model instance inside the class of a C02 fragment theorem rejected by the Lean validator "
                              "(contradicts the theorem's statement)", code=None, model=dict(valid=False))
         # C03 / C06: the classes of C03_fragment_partial (inCleanFragment) / C06_fragment_partial (inXorFragment),
-        # reported by the driver for uncompute=True runs (theorems parked like the C02 ones); same rule
+        # reported by the driver for uncompute=True runs (both theorems are proved for the model of the repaired
+        # compiler; the classes no longer restrict the arity of Or); same rule
         if prop in ("C03", "C06") and unc and rep is not None and not mismatch:
             key, frag_thm, vkey = (("in_clean_fragment", "C03_fragment_partial", "clean") if prop == "C03"
                                    else ("in_xor_fragment", "C06_fragment_partial", "xor"))
@@ -447,10 +448,9 @@ def run_compiler_check(ctx, res, prop):
     if prop in ("C03", "C06"):
         thm, cls = (("C03_fragment_partial", "inCleanFragment") if prop == "C03" else ("C06_fragment_partial", "inXorFragment"))
         res.notes.append(f"{stats['in_fragment']} compiled instances lie in the decidable class of the Lean theorem {thm} "
-                         f"({cls}: one definition, tree-like expression over the arguments, every Or with at most two "
-                         "arguments, the return name requested) with the model reproducing the real gate list; the theorem is "
-                         "PORT-PENDING (proved for the model of the unrepaired compiler, parked until the semantic proofs are "
-                         f"ported); {stats['in_fragment_bad']} of these instances fail")
+                         f"({cls}: one definition, tree-like expression over the arguments with Or of any arity, the return "
+                         "name requested - or, for C03, none) with the model reproducing the real gate list; the theorem is proved for the model of "
+                         f"the repaired compiler; {stats['in_fragment_bad']} of these instances fail")
     res.notes.append("decided per compiled instance (exhaustive over its inputs) by validators whose soundness is proved; "
                      "the compiler model reproduces the real gate list exactly, ancilla choices logged from the real run, "
                      "the iteration order of set(erets) in compile_or reproduced by the model (pySetOrder); no open finding "
